@@ -1,11 +1,11 @@
 SPECIFICATION Spec
 CONSTANTS MaxLen = 3
-          MaxCalls = 4
+          MaxCalls = 3
           MaxCrashes = 2
           MaxTorn = 1
           PageBits = 2
           Cadence = "free"
-          Role = "writer"
+          Role = "replica"
           TruncOnOpen = TRUE
           Mut = "none"
 VIEW NoHist
